@@ -51,6 +51,7 @@ def main():
                 m = machines[mname] = runner.get_machine(mname)
             seed = h64(root, i)
             faulthandler.dump_traceback_later(per_run_cap, exit=True, file=sys.__stderr__)
+            _t_run = time.time()
             try:
                 case = m.generate(seed, tier, i)
                 case["property"] = prop
@@ -71,6 +72,9 @@ def main():
                     break
                 continue
             faulthandler.cancel_dump_traceback_later()
+            _dt = time.time() - _t_run
+            if _dt > out.get("slowest", [0.0])[0]:
+                out["slowest"] = [round(_dt, 2), i]
             out["n"] += 1
             out["per_machine"][mname] = out["per_machine"].get(mname, 0) + 1
             out["n_ops"] += res.n_ops
@@ -96,7 +100,8 @@ def main():
                     case["idx"] = i
                 if len(out["violations"]) < 40:
                     out["violations"].append({"idx": i, "seed": seed, "case": case, "violation": res.violation, "digest": res.digest,
-                                              "tag": m.case_tag(case) if hasattr(m, "case_tag") else ""})
+                                              "tag": m.case_tag(case) if hasattr(m, "case_tag") else "",
+                                              "fp": m.fingerprint(case, res.violation) if hasattr(m, "fingerprint") else None})
                 else:
                     out["violations_dropped"] = out.get("violations_dropped", 0) + 1
         scratch = job.get("scratch")
